@@ -62,6 +62,7 @@ package xpath
 // specified as a whole: the untouched prefix is stated unchanged.
 
 //@ define top(ctx) = ctx.stack[len(ctx.stack)-1]
+//@ define emptyNset(d) = xp_isnset(d) && len(d.(nodesetDatum).nodes) == 0
 //@ define arg1(ctx) = old(ctx.stack[len(ctx.stack)-1])
 //@ define arg2(ctx) = old(ctx.stack[len(ctx.stack)-2])
 //@ define pop2push1(ctx) = len(ctx.stack) == old(len(ctx.stack)) - 1 && forall(i, 0, len(ctx.stack)-1, ctx.stack[i] == old(ctx.stack[i]))
@@ -136,42 +137,64 @@ package xpath
 //@   modifies ctx.stack
 //@   modifies elems(ctx.stack)
 //@   ensures implies(xp_isscalar(arg1(ctx)) && xp_isscalar(arg2(ctx)), pop2push1(ctx) && top(ctx) == xp_mkbool(xp_ne_scalar(arg2(ctx), arg1(ctx))))
+//@   ensures implies(emptyNset(arg1(ctx)) || emptyNset(arg2(ctx)), len(ctx.stack) == old(len(ctx.stack)) - 1 && top(ctx) == xp_mkbool(false))
 //@ func (*ProgBuilder).Lt
 //@   implements type:instFunc
 //@   requires ctx != nil
 //@   modifies ctx.stack
 //@   modifies elems(ctx.stack)
 //@   ensures implies(xp_isscalar(arg1(ctx)) && xp_isscalar(arg2(ctx)), pop2push1(ctx) && top(ctx) == xp_mkbool(xp_lt_scalar(arg2(ctx), arg1(ctx))))
+//@   ensures implies(emptyNset(arg1(ctx)) || emptyNset(arg2(ctx)), len(ctx.stack) == old(len(ctx.stack)) - 1 && top(ctx) == xp_mkbool(false))
 //@ func (*ProgBuilder).Le
 //@   implements type:instFunc
 //@   requires ctx != nil
 //@   modifies ctx.stack
 //@   modifies elems(ctx.stack)
 //@   ensures implies(xp_isscalar(arg1(ctx)) && xp_isscalar(arg2(ctx)), pop2push1(ctx) && top(ctx) == xp_mkbool(xp_le_scalar(arg2(ctx), arg1(ctx))))
+//@   ensures implies(emptyNset(arg1(ctx)) || emptyNset(arg2(ctx)), len(ctx.stack) == old(len(ctx.stack)) - 1 && top(ctx) == xp_mkbool(false))
 //@ func (*ProgBuilder).Gt
 //@   implements type:instFunc
 //@   requires ctx != nil
 //@   modifies ctx.stack
 //@   modifies elems(ctx.stack)
 //@   ensures implies(xp_isscalar(arg1(ctx)) && xp_isscalar(arg2(ctx)), pop2push1(ctx) && top(ctx) == xp_mkbool(xp_gt_scalar(arg2(ctx), arg1(ctx))))
+//@   ensures implies(emptyNset(arg1(ctx)) || emptyNset(arg2(ctx)), len(ctx.stack) == old(len(ctx.stack)) - 1 && top(ctx) == xp_mkbool(false))
 //@ func (*ProgBuilder).Ge
 //@   implements type:instFunc
 //@   requires ctx != nil
 //@   modifies ctx.stack
 //@   modifies elems(ctx.stack)
 //@   ensures implies(xp_isscalar(arg1(ctx)) && xp_isscalar(arg2(ctx)), pop2push1(ctx) && top(ctx) == xp_mkbool(xp_ge_scalar(arg2(ctx), arg1(ctx))))
+//@   ensures implies(emptyNset(arg1(ctx)) || emptyNset(arg2(ctx)), len(ctx.stack) == old(len(ctx.stack)) - 1 && top(ctx) == xp_mkbool(false))
 
 // Comparison callbacks passed around by the comparison instructions: pure
 // functions of their two operands (they may panic on an invalid datum).
 //@ func type:datumCompFn
 //@   params d1 d2
 
-// Node-set comparisons (existential semantics); functional part see below.
+// Node-set comparisons. XPath 1.0 section 3.4: a comparison involving an empty node-set is false,
+// whatever the operator and the other operand ("absent node behaves as an empty node-set").
+//@ func (nodesetDatum).literalSlice
+//@   ensures len(result) >= 1
+//@   loop 0 invariant len(litSlice) == loopidx + 1
+//@ func (*context).compareWorker
+//@   requires ctx != nil
+//@   modifies ctx.stack
+//@   modifies elems(ctx.stack)
+//@   ensures push1(ctx) && xp_isbool(top(ctx))
+//@   loop 0 invariant ctx.stack == old(ctx.stack) && forall(i, 0, len(ctx.stack), ctx.stack[i] == old(ctx.stack[i]))
+//@   loop 1 invariant ctx.stack == old(ctx.stack) && forall(i, 0, len(ctx.stack), ctx.stack[i] == old(ctx.stack[i]))
+//@ func (*context).compareAndPushNodesets
+//@   requires ctx != nil && len(ops1) >= 1 && len(ops2) >= 1
+//@   modifies ctx.stack
+//@   modifies elems(ctx.stack)
+//@   ensures push1(ctx) && xp_isbool(top(ctx))
 //@ func (*context).compareNodesetsAndPush
 //@   requires ctx != nil
 //@   modifies ctx.stack
 //@   modifies elems(ctx.stack)
-//@   ensures push1(ctx)
+//@   ensures len(ctx.stack) == old(len(ctx.stack)) + 1
+//@   ensures implies(emptyNset(op1) || emptyNset(op2), top(ctx) == xp_mkbool(false))
 
 // ---------------------------------------------------------------------------
 // Core function library (XPath 1.0 section 4). Arguments arrive already
